@@ -1340,7 +1340,7 @@ def check_batch(run, progs, maxraise, name, signature_of=None, coverage=False, w
         if exp["obs"] and exp["out"]:
             ex = Executor(p, Conc(p, run.rng).templates())
             got = ex.run(0)
-            if compare(exp, got):
+            if compare(exp, got) or got["out"] is None or got["fb"] is None:
                 continue
             bad = copy.deepcopy(exp)
             bad["out"][-1] = bad["out"][-1] + "x"
